@@ -31,6 +31,24 @@ class Empty(Exception):
         return 0
 
 
+class BaseA(Exception):
+    """user-defined exception hierarchies (heap types: their hashes follow the memory layout)"""
+
+
+class SubA(BaseA):
+    pass
+
+
+class BaseB(Exception):
+    pass
+
+
+class SubB(BaseB):
+    pass
+
+
+for _c in (BaseA, SubA, BaseB, SubB):
+    EXC[_c.__name__] = _c
 EXC['Empty'] = Empty
 EXC['Mismatch'] = Mismatch
 EXC['Abort'] = Abort
@@ -516,6 +534,19 @@ class Interp:
         except (Exception, Concurrent) as e:
             self.ctx.rec('caught', act, pc, e)
             return e
+
+    async def op_MATCH(self, act, pc, body, types, inclusive=False):
+        """run body; a failure is matched against Concurrent[types] - the program's control flow follows the verdict"""
+        try:
+            await self.block(act, body, pc)
+        except (Exception, Concurrent) as e:
+            spec = tuple(EXC[t] for t in types) + ((...,) if inclusive else ())
+            verdict = isinstance(e, Concurrent[spec] if spec else Concurrent)
+            self.ctx.rec('matched', act, pc, verdict)
+            if verdict:
+                await instant
+            else:
+                await (time + 1)
 
     async def op_FINALLY(self, act, pc, body, cleanup):
         """try: body  finally: cleanup  (cleanup must not suspend when the activity is being closed)"""
